@@ -249,18 +249,46 @@ fn probe_tx(w: &mut World, a: &ATx) -> TransactionView {
     b.witness(Bytes::from(w.salt.to_le_bytes().to_vec()).pack()).build()
 }
 
-/// A block on `n`'s tip carrying `txs` after the cellbase: production calculators wherever the body resolves.
-fn block_with(n: &Node, txs: &[TransactionView], ts: u64, nonce: u64) -> BlockView {
-    match assemble(n, &BlockSpec { commits: txs.to_vec(), ts, nonce, ..Default::default() }) {
-        Ok(b) => b,
-        Err(_) => {
-            // the body does not resolve (that is the probe): take everything else from a valid empty block
-            let base = assemble(n, &BlockSpec { ts, nonce, ..Default::default() }).expect("empty block");
-            let mut all = base.transactions();
-            all.extend(txs.iter().cloned());
-            base.as_advanced_builder().set_transactions(all).build()
-        }
+struct AnyHeader;
+impl ckb_types::core::cell::HeaderChecker for AnyHeader {
+    fn check_valid(&self, _block_hash: &Byte32) -> Result<(), ckb_types::core::error::OutPointError> {
+        Ok(())
     }
+}
+
+/// A block on `n`'s tip carrying `txs` after the cellbase.  Epoch, reward, DAO field and chain root come from the
+/// production calculators.  The body is resolved PERMISSIVELY for the DAO calculator (any header dep, no double-spend
+/// tracking across the block; a transaction whose cells cannot be found at all is left out of the DAO sum), so that
+/// the block's only flaw is the probe's: the verdict must come from the verifiers, not from a wrong DAO field.
+fn block_with(n: &Node, txs: &[TransactionView], ts: u64, nonce: u64) -> BlockView {
+    use ckb_store::ChainStore;
+    use ckb_types::core::cell::{resolve_transaction, BlockCellProvider, OverlayCellProvider};
+    use ckb_types::core::BlockBuilder;
+    let base = assemble(n, &BlockSpec { ts, nonce, ..Default::default() }).expect("empty block");
+    if txs.is_empty() {
+        return base;
+    }
+    let snap = n.shared.cloned_snapshot();
+    let tip = snap.tip_header().clone();
+    let mut all = base.transactions();
+    all.extend(txs.iter().cloned());
+    let draft = BlockBuilder::default().transactions(all.clone()).build();
+    let mut rtxs = vec![];
+    if let Ok(bcp) = BlockCellProvider::new(&draft) {
+        let cp = OverlayCellProvider::new(&bcp, snap.as_ref());
+        for t in all.iter().cloned() {
+            let mut seen = std::collections::HashSet::new();
+            if let Ok(r) = resolve_transaction(t, &mut seen, &cp, &AnyHeader) {
+                rtxs.push(r);
+            }
+        }
+    } else {
+        // duplicate transaction hashes in the body: only the cellbase counts
+        let mut seen = std::collections::HashSet::new();
+        rtxs.push(resolve_transaction(all[0].clone(), &mut seen, snap.as_ref(), &AnyHeader).expect("cellbase"));
+    }
+    let dao = ckb_dao::DaoCalculator::new(snap.consensus(), &snap.borrow_as_data_loader()).dao_field(rtxs.iter(), &tip).unwrap_or_else(|_| base.header().dao());
+    base.as_advanced_builder().set_transactions(all).dao(dao).build()
 }
 
 fn submit_block(n: &Node, b: &BlockView) -> (bool, String) {
